@@ -141,12 +141,30 @@ func refEvents(v reflect.Value, out *[]Event) bool {
 		*out = append(*out, Event{K: "end"})
 	case reflect.Struct:
 		*out = append(*out, Event{K: "m"})
-		for i := 0; i < v.NumField(); i++ {
-			f := v.Type().Field(i)
+		// the fields of embedded structs are fields of the embedding struct (flattened, in place)
+		type fieldVal struct {
+			f  reflect.StructField
+			fv reflect.Value
+		}
+		var flat []fieldVal
+		var collect func(sv reflect.Value)
+		collect = func(sv reflect.Value) {
+			for i := 0; i < sv.NumField(); i++ {
+				f := sv.Type().Field(i)
+				if f.Anonymous && f.Type.Kind() == reflect.Struct {
+					collect(sv.Field(i))
+					continue
+				}
+				flat = append(flat, fieldVal{f, sv.Field(i)})
+			}
+		}
+		collect(v)
+		for _, x := range flat {
+			f := x.f
 			if f.PkgPath != "" {
 				continue
 			}
-			fv := v.Field(i)
+			fv := x.fv
 			// default omit behaviour: omit empty (nil pointer/interface, empty map/slice/array/string)
 			switch fv.Kind() {
 			case reflect.Interface, reflect.Ptr:
